@@ -1,6 +1,6 @@
 # C20 Layout object properties round-trip and do not interfere
 ASSUMPTIONS = ["source values come from a contract-stub convertable (answers exactly one held type)", "NaN sources excluded (NaN != NaN)",
-               "kinds covered: line (8 scalar properties); colour text parse/print; other kinds listed as outside in DESIGN.md"]
+               "kinds covered: line (8 scalar properties), axis (9 scalar properties, sequences of set calls); colour text parse/print; other kinds listed as outside in DESIGN.md"]
 U = ["mptplot/layout/line_property.c", "mptplot/layout/lattr_set.c", "mptplot/layout/color_set.c", "mptplot/layout/color_parse.c", "mptplot/layout/color_html.c", "mptcore/convert/convert_int.c",
      "mptcore/object/property_match.c", "mptcore/types/value_compare.c", "mptcore/types/type_traits.c",
      "mptcore/misc/identifier.c", "mptcore/array/array_traits.c", "mptcore/meta/meta_reference_traits.c", "mptcore/event/command_traits.c",
@@ -11,7 +11,15 @@ def queries(tier):
     col = Q("colour_text", "C20/color.c", units=["mptplot/layout/color_parse.c", "mptplot/layout/color_html.c", "mptplot/layout/color_set.c", "mptcore/convert/convert_int.c", "mptcore/types/type_traits.c", "mptcore/misc/identifier.c", "mptcore/array/array_traits.c", "mptcore/meta/meta_reference_traits.c", "mptcore/event/command_traits.c", "mptcore/array/array_clone.c"],
             harness_defines={"TL": 5 if tier == "quick" else 8}, unwind_default=12, stubs=["libc.c"], flags=["--max-field-sensitivity-array-size", "100"],
             bounds="colour text of <= %d characters over {#,0,8,f,a,g,space,NUL}" % (5 if tier == "quick" else 8), outside="colour names beyond the alphabet; printing")
-    return [col,
+    UA = ["mptplot/layout/axis_property.c"] + [u for u in U if "line_property" not in u and "lattr" not in u and "color" not in u]
+    ax = [Q("axis_props_%dstep" % n, "C20/axis.c", units=UA, unwind_default=16, fp=[(r"convert", ["h_conv"])], harness_defines={"STEPS": n, "V_NMAX": 128},
+            unwind={"harness": 44, "step": 44, "strcmp": 12, "strcasecmp": 12, "strncasecmp": 5, "strlen": 12, "memcmp": 44, "memcpy": 44, "mpt_axis_get": 12, "mpt_property_match": 12},
+            flags=["--max-field-sensitivity-array-size", "100"], stubs=["libc.c"],
+            bounds="axis object bytes fully symbolic (title pointer NULL); %d consecutive set calls, each: property in {begin,end,tlen,exp,intv,sub,dec,lpos,tpos}; "
+                   "source holds one of d/f/n/y/c/k/s (text of <= 4 symbolic characters or NULL) with a symbolic value, an empty value, or reset (NULL source)" % n,
+            outside="title (heap string), generic assignment, alias names other than the ones used; kinds text/graph/world")
+          for n in ((1, 2) if tier == "quick" else (1, 2, 3))]
+    return [col] + ax + [
         Q("line_scalar_props", "C20/line.c", units=U, unwind_default=16, fp=[(r"convert", ["h_conv"])],
           unwind={"harness": 30, "strcmp": 8, "strcasecmp": 8, "strncasecmp": 8, "strlen": 8, "memcmp": 30, "mpt_line_get": 12, "mpt_property_match": 12},
           flags=["--max-field-sensitivity-array-size", "100"], stubs=["libc.c"],
